@@ -98,9 +98,10 @@ class SMap(Sym):
     """dict with symbolic content: has: Array K Bool, val: Array K V (mutable box).
     Insertion order is not modelled by this class."""
 
-    __slots__ = ("has", "val", "kty", "vty", "size", "keys", "kpos")
+    __slots__ = ("has", "val", "kty", "vty", "size", "keys", "kpos", "heap")
 
-    def __init__(self, has, val, kty, vty, size=None, keys=None, kpos=None):
+    def __init__(self, has, val, kty, vty, size=None, keys=None, kpos=None, heap=None):
+        self.heap = heap  # None: live dict; a frozen heap: the dict as part of a pre-state snapshot (its references read that heap)
         self.has = has
         self.val = val
         self.kty = kty
@@ -142,6 +143,20 @@ class SObj(Sym):
 
     def __repr__(self):
         return f"<SObj {getattr(self.cls, '__name__', self.cls)}#{self.oid} {self.label or ''}>"
+
+
+class SRef(Sym):
+    """Reference to an object of a *heap class*: objects are integers (>= 1; 0 is None) and each
+    field of the class is one array Int -> value in the path's heap, so aliasing between
+    references is symbolic.  `heap` is None for the current heap or a frozen snapshot."""
+
+    __slots__ = ("cls", "id", "heap")
+
+    def __init__(self, cls, id, heap=None):
+        self.cls, self.id, self.heap = cls, id, heap
+
+    def __repr__(self):
+        return f"<SRef {getattr(self.cls, '__name__', self.cls)} {self.id}>"
 
 
 class ExcVal:
@@ -230,6 +245,16 @@ class T:
     bytesio = Ty("bytesio")
 
     @staticmethod
+    def ref(clsname, nullable=False):
+        """reference to an object of a heap class (see Registry.declare_heap_class)"""
+        return Ty("ref", cls=clsname, nullable=nullable)
+
+    @staticmethod
+    def id_seq():
+        """ghost sequence of object ids whose elements serve as instantiation terms"""
+        return Ty("seq", ety=Ty("int", lo=None, hi=None), seqkind="tuple", index_terms=True)
+
+    @staticmethod
     def indexed_list_of_int():
         """list of ints that also carries ghost membership / position arrays (for 'x in list')"""
         return Ty("seq", ety=Ty("int", lo=None, hi=None), seqkind="list", indexed=True)
@@ -244,6 +269,8 @@ def sort_of(ty: Ty):
         return RealS
     if ty.kind in ("bytes", "str", "bytearray"):
         return SeqI
+    if ty.kind == "ref":
+        return IntS
     if ty.kind == "const":
         return BoolS  # placeholder sort for maps whose values are all one constant (e.g. None)
     raise Unsupported(f"no SMT sort for element type {ty}")
@@ -270,6 +297,8 @@ def to_z3(v):
     """Lift a value to a z3 expression (ints, bools, reals, bytes/str)."""
     if isinstance(v, (SInt, SBool, SBytes, SReal)):
         return v.e
+    if isinstance(v, SRef):
+        return v.id
     if isinstance(v, z3.ExprRef):
         return v
     if isinstance(v, bool):
@@ -292,7 +321,12 @@ def wrap(ty: Ty, e):
         return SReal(e)
     if ty.kind in ("bytes", "str", "bytearray"):
         return SBytes(e, ty.kind)
+    if ty.kind == "ref" and RESOLVE_CLS is not None:
+        return SRef(RESOLVE_CLS(ty.cls), e)
     raise Unsupported(f"cannot wrap sort for {ty}")
+
+
+RESOLVE_CLS = None  # set by the registry: qualified class name -> live class
 
 
 _SIMP_CACHE = {}
